@@ -85,10 +85,10 @@ TNext ==
      ELSE IF e.t = "call" THEN
         IF ENABLED ActionFor(e.r, e.call)
           THEN /\ ActionFor(e.r, e.call) /\ l' = l + 1 /\ UNCHANGED <<skipping, nbad>>
-          ELSE /\ PrintT(<<"NOCONF", l, e.run, "call not enabled in the model", e.r, e.call, pc[e.r], lock>>)
+          ELSE /\ PrintT(<<"NOCONF", l, e.run, e.r, e.call>>)
                /\ skipping' = TRUE /\ nbad' = nbad + 1 /\ l' = l + 1 /\ UNCHANGED vars
      ELSE \* "end"
-        /\ (~EndOK(e) => PrintT(<<"NOCONF", l, e.run, "outcome differs from the model", [r \in RIds |-> resp[r].kind], e.kinds, Shape(db), ObsShape(e.final)>>))
+        /\ (~EndOK(e) => PrintT(<<"NOCONF", l, e.run, 0, "outcome">>))
         /\ nbad' = nbad + (IF EndOK(e) THEN 0 ELSE 1)
         /\ l' = l + 1 /\ UNCHANGED <<vars, skipping>>
 
